@@ -749,7 +749,7 @@ def run(ctx, model=True):
     consts = source_constants(m)
     rng = ctx.rng
     pending = []
-    n = 130 if ctx.quick() else 12000
+    n = 90 if ctx.quick() else 12000
     cases = []
     # named hard cases: every dtype on a ramp and on ties, cx != cy
     for dt in INT_DT + ['float32', 'float64']:
@@ -772,7 +772,7 @@ def run(ctx, model=True):
             c = new_case(rng, dt=dt, shape=(rng.randint(3, 4), rng.randint(3, 5)), kind=kind)
             c['chunks'] = gen_chunks(rng, len(c['data']), len(c['data'][0]), st)
             cases.append(c)
-    for _ in range(12 if ctx.quick() else 800):
+    for _ in range(6 if ctx.quick() else 800):
         c = new_case(rng)
         rows_ = len(c['data'])
         c['chunks'] = gen_chunks(rng, rows_, len(c['data'][0]) if rows_ else 0, rng.choice(styles))
@@ -785,7 +785,7 @@ def run(ctx, model=True):
                                         case['res'].get('form', case['res']['kind']), '+coords' if case['coords'] else ''))
         run_case(ctx, m, consts, case, pending)
     # lazy results of several functions / parameters / rasters evaluated in one graph
-    for _ in range(6 if ctx.quick() else 300):
+    for _ in range(4 if ctx.quick() else 300):
         c = new_case(rng, shape=(rng.randint(3, 5), rng.randint(3, 5)))
         c['chunks'] = gen_chunks(rng, len(c['data']), len(c['data'][0]), rng.choice(styles))
         ctx.case(dict(c, together=True))
